@@ -353,7 +353,7 @@ def elk_stream(ctx, m):
     name = "c24.elk"
     elk = vlib.build_elk()
     rng = ctx.rng(name)
-    n = ctx.n(24, 1500)
+    n = ctx.n(16, 1500)
     hists = []
     corpus = os.path.join(vlib.ROOT, "corpus", "C24.elk.txt")
     if os.path.exists(corpus):
@@ -365,7 +365,7 @@ def elk_stream(ctx, m):
     rc, exp, mout = vlib.run_model(m, ids, inputs)
     rc2, sexp, _ = vlib.run_model(m, ids, inputs, args=["spec"])
     progs = [(i, elk_program(inputs[i])) for i in ids] + [("p%d" % k, src) for k, (_, src, _) in enumerate(PROBES)]
-    res = vlib.run_programs(elk, progs, os.path.join(ctx.workdir, "elk"), timeout=25)
+    res = vlib.run_programs(elk, progs, os.path.join(ctx.workdir, "elk"), timeout=12)
     items = 0
     mism = 0
     tol = 0
